@@ -450,6 +450,9 @@ pub enum Case {
     Bundle(Vec<(usize, usize)>),
     /// extern "C" entry point index, null mask over its pointer arguments, payload variant
     Ffi(usize, u32, usize),
+    /// the same case in a process whose log records go to a C callback (redirectionio_log_init_with_callback): every
+    /// error / warning path of the library then builds a C string from its message and hands it to the receiver
+    Logged(Box<Case>),
 }
 
 pub fn enumerate_cases(tier: Tier) -> Vec<Case> {
@@ -467,6 +470,9 @@ pub fn enumerate_cases(tier: Tier) -> Vec<Case> {
             }
         }
     }
+    // every single deviation and every pointer pattern again with the callback logger installed
+    let logged: Vec<Case> = out.iter().filter(|c| !matches!(c, Case::Ffi(f, _, _) if FFI_FUNCS[*f].0.contains("log_init"))).map(|c| Case::Logged(Box::new(c.clone()))).collect();
+    out.extend(logged);
     if tier == Tier::Thorough {
         // all pairs of deviations on different fields; the heavy bodies only pair with the first value of other fields
         for i in 0..devs.len() {
@@ -779,10 +785,25 @@ pub const FFI_PAYLOADS: usize = 3;
 
 extern "C" fn log_cb(_msg: *const std::os::raw::c_char, _data: *const std::os::raw::c_void, _level: std::os::raw::c_short) {}
 
+/// what the proxy modules' receivers do: use the message, then release it
+extern "C" fn log_receiver(msg: *const std::os::raw::c_char, _data: *const std::os::raw::c_void, _level: std::os::raw::c_short) {
+    if !msg.is_null() {
+        let text = unsafe { std::ffi::CString::from_raw(msg as *mut std::os::raw::c_char) };
+        std::hint::black_box(text.as_bytes().len());
+    }
+}
+
+fn install_callback_logger() {
+    static DATA: u8 = 0;
+    unsafe { redirectionio_log_init_with_callback(log_receiver, &DATA as *const u8 as *const _) };
+}
+
 fn action_json() -> String {
     json!({
         "status_code_update": {"status_code": 302, "on_response_status_codes": [], "exclude_response_status_codes": false, "fallback_status_code": 0, "rule_id": "r", "fallback_rule_id": null, "unit_id": null, "target_hash": null},
-        "header_filters": [{"filter": {"action": "override", "header": "Location", "value": "/t", "id": null, "target_hash": null}, "on_response_status_codes": [], "exclude_response_status_codes": false, "rule_id": "r"}],
+        "header_filters": [{"filter": {"action": "override", "header": "Location", "value": "/t", "id": null, "target_hash": null}, "on_response_status_codes": [], "exclude_response_status_codes": false, "rule_id": "r"},
+                           // a value that has no C representation (NUL inside)
+                           {"filter": {"action": "add", "header": "X-Nul", "value": "a\u{0}b", "id": null, "target_hash": null}, "on_response_status_codes": [], "exclude_response_status_codes": false, "rule_id": "r"}],
         "body_filters": [{"filter": {"action": "append_child", "value": "<i>v</i>", "inner_value": null, "element_tree": ["html", "body"], "css_selector": null, "id": null, "target_hash": null}, "on_response_status_codes": [], "exclude_response_status_codes": false, "rule_id": "r"}],
         "rule_ids": ["r"], "rule_traces": [], "rules_applied": [], "log_override": null
     })
@@ -1006,6 +1027,10 @@ pub fn run_case(case: &Case) -> Vec<PanicInfo> {
     match case {
         Case::Bundle(devs) => run_bundle(&apply(devs)),
         Case::Ffi(f, mask, payload) => run_ffi(*f, *mask, *payload),
+        Case::Logged(inner) => {
+            install_callback_logger();
+            run_case(inner)
+        }
     }
 }
 
@@ -1076,6 +1101,7 @@ fn describe(case: &Case) -> String {
             }
         }
         Case::Ffi(f, mask, payload) => format!("{}(null mask {:#b}, payload variant {})", FFI_FUNCS[*f].0, mask, payload),
+        Case::Logged(inner) => format!("with the callback logger installed: {}", describe(inner)),
     }
 }
 
@@ -1086,6 +1112,7 @@ fn field_class(case: &Case) -> String {
             devs.iter().map(|(i, _)| d[*i].0.clone()).collect::<Vec<_>>().join("+")
         }
         Case::Ffi(f, ..) => FFI_FUNCS[*f].0.to_string(),
+        Case::Logged(inner) => format!("callback-logger:{}", field_class(inner)),
     }
 }
 
@@ -1251,7 +1278,8 @@ pub fn run(tier: Tier) -> i32 {
                 // whether an earlier case of the same process has installed one already
                 let all: Vec<usize> = (start..(start + batch).min(n)).collect();
                 let solo = |i: &usize| matches!(&cases[*i], Case::Ffi(f, _, _) if FFI_FUNCS[*f].0.contains("log_init"));
-                let mut groups: Vec<Vec<usize>> = vec![all.iter().copied().filter(|i| !solo(i)).collect()];
+                let logged = |i: &usize| matches!(&cases[*i], Case::Logged(_));
+                let mut groups: Vec<Vec<usize>> = vec![all.iter().copied().filter(|i| !solo(i) && !logged(i)).collect(), all.iter().copied().filter(|i| logged(i)).collect()];
                 groups.extend(all.iter().copied().filter(|i| solo(i)).map(|i| vec![i]));
                 for mut todo in groups {
                 while !todo.is_empty() {
@@ -1307,6 +1335,7 @@ pub fn run(tier: Tier) -> i32 {
                             let weight = match case {
                                 Case::Bundle(d) => d.len() as u64 * 1000 + d.iter().map(|(i, v)| (*i + *v) as u64).sum::<u64>(),
                                 Case::Ffi(_, m, p) => 500 + *m as u64 + *p as u64,
+                                Case::Logged(_) => 5000,
                             };
                             ctx.report(Violation { signature: sig, what, case: json!({"case": case, "tier": tier.name()}), weight });
                         }
@@ -1340,7 +1369,8 @@ pub fn run(tier: Tier) -> i32 {
         .set("fields_with_hostile_alphabet", json!(devs.len()))
         .set("single_deviation_cases", json!(singles))
         .set("ffi_pointer_pattern_cases", json!(ffi_cases))
-        .set("pair_deviation_cases", json!(n - singles - ffi_cases - 1))
+        .set("pair_deviation_cases", json!(n - singles - ffi_cases - 1 - cases.iter().filter(|c| matches!(c, Case::Logged(_))).count()))
+        .set("cases_with_callback_logger_installed", json!(cases.iter().filter(|c| matches!(c, Case::Logged(_))).count()))
         .set("not_reproduced_worker_deaths", json!(m.iter().filter(|x| x.contains("did not reproduce")).count()))
         .set("samples", json!(cases.iter().step_by((n / 6).max(1)).take(6).map(describe).collect::<Vec<_>>()))
         .set("exhaustive", json!(true))
